@@ -41,7 +41,21 @@ def daemon(ctx, quick):
     return flags
 
 
-ITEMS = [("pipeline", pipeline), ("daemon", daemon)]
+def cache(ctx, quick):
+    """The id <-> name cache behind ResolveIDs as a timed machine (IdCache.tla, CacheMonitor.tla):
+    model checked, then real caches with injected lookup functions (verif hook) and real sleeps."""
+    cfg = "\n".join(["SPECIFICATION MCSpec", "CONSTANTS", ' Keys = {"7", "8"}', ' Values = {"alice", "bob"}', " Expiration = 1",
+                     " MaxOps = %d" % (4 if quick else 6), " MaxTicks = 3", " Never = 1000000", "INVARIANT NoFlags", "CHECK_DEADLOCK FALSE"]) + "\n"
+    res = ctx.tlc("cache", "MC_IdCache", cfg, workers=core.NCPU, timeout=3000, heap="16g")
+    ctx.log("id cache model: %d distinct states, no flag" % res.distinct)
+    tp = ctx.path("cache", "trace.ndjson")
+    st = ctx.driver_json(["cache-run", "--out", tp, "--seed", ctx.seed, "--n", 200 if quick else 5000, "--len", 40 if quick else 80], timeout=3000)["stats"]
+    flags, n = core.judge_traces(ctx, "cache", "CacheTrace", TRACE_CFG, tp)
+    ctx.log("id cache real runs: %s; %d records judged; %d flags" % (st, n, len(flags)))
+    return flags
+
+
+ITEMS = [("pipeline", pipeline), ("daemon", daemon), ("cache", cache)]
 
 
 def run(tier, seed, only=None):
